@@ -114,7 +114,7 @@ def build_model():
     if not ok:
         return False, log
     with Lock("driver"):
-        src = [os.path.join(VERIF, "driver", f) for f in ("model.ml", "model.mli", "util.ml", "json.ml", "seqops.ml", "streamops.ml", "editops.ml", "genops.ml", "ops.ml", "main.ml")]
+        src = [os.path.join(VERIF, "driver", f) for f in ("model.ml", "model.mli", "util.ml", "json.ml", "seqops.ml", "streamops.ml", "editops.ml", "genops.ml", "xmlops.ml", "ops.ml", "main.ml")]
         h = hashlib.sha256()
         for f in src:
             h.update(open(f, "rb").read())
